@@ -300,3 +300,11 @@ TRUSTED_BASE = [
     "correspondence harness /verif/harness (Rust, path deps on /repo/crates/*) and lib/*.py which feed the same inputs to model and implementation; agreement decided inside coqc",
     "no extraction is used",
 ]
+
+
+def coqchk(prop, timeout=1500):
+    """independent re-check of the compiled closure of Props/<prop>.vo; returns (ok, summary)"""
+    rc, out = sh(["coqchk", "-o", "-silent", "-Q", COQ, "NW", "NW.Props.%s" % prop], cwd=COQ, timeout=timeout)
+    m = re.search(r"\* Axioms:\s*(.*?)\n\s*\n", out, flags=re.S)
+    axioms = m.group(1).strip() if m else "<unparsed>"
+    return rc == 0 and axioms == "<none>", "coqchk rc=%d axioms=%s" % (rc, axioms)
